@@ -234,7 +234,7 @@ class FullCheck(BaseCheck):
     t_start = env.now
     if boundary:
       classes.add('boundary')
-    methods = ['echo', 'echo', 'echo', 'fail', 'fail', 'swap', 'extra', 'lock']
+    methods = ['echo', 'echo', 'echo', 'fail', 'fail', 'swap', 'extra', 'lock', 'tail']
     for when, what in events:
       target = t_start + when
       if boundary:
@@ -249,6 +249,12 @@ class FullCheck(BaseCheck):
           tagstr += ':FINE'         # this call returns a value; 'fail' otherwise raises its declared exception
         args = (ttypes.Pair(name=tagstr, n=cid, nums=[1, 2], kv={}),) if m == 'swap' else (tagstr,)
         kw = None
+        if m == 'tail':
+          # a method whose value may be empty (falsy, not missing)
+          tagstr += rng.choice([':', ':', ':x'])
+          args = (tagstr,)
+          if tagstr.endswith(':'):
+            classes.add('reply:falsy-value')
         if m == 'lock':
           # a service method one of whose parameters is called 'timeout', passed by position or by keyword
           if rng.random() < 0.6:
@@ -447,6 +453,15 @@ class FullCheck(BaseCheck):
         if exp[0] != 'exc' or inner.why != exp[1].why:
           viol('reply:wrong-exception', 'call %d (%s%r) raised %r' % (rec['cid'], rec['method'], rec['args'], inner),
                {}, brief)
+      elif isinstance(c0['payload'], ScalesError) and \
+          type(c0['payload'].inner_exception).__name__ == 'TApplicationException' and exp[0] == 'value':
+        # the protocol layer reports a failure of the call itself (unknown result, wrong method, ...):
+        # only a reply the server mangled or cut can justify that; a plain value reply cannot
+        qs_ = reqs_by_cid.get(rec['cid'], [])
+        ob('reply:')
+        if qs_ and not any(q_.get('mangled') or q_.get('cut') or q_.get('dropped') for q_ in qs_):
+          viol('reply:application-error-for-a-value', 'call %d (%s%r): the server answered with the value %r, the caller got %r' % (
+            rec['cid'], rec['method'], rec['args'], exp[1], c0['payload'].inner_exception), {'falsy': not exp[1]}, brief)
     for q in w.requests():
       ob('reply:')
       c = cid_of(q)
